@@ -18,3 +18,18 @@ def build(reg):
         trusted=["pulser: sum of samples.reps over hamiltonian.noisy_samples == n_trajectories (A4)",
                  "pulser Results.aggregate combines exactly the list it is given (mean / bag-union per observable)"],
     )
+
+
+# negative controls (thorough tier): (name, file, old text, new text)
+CONTROLS = [('aggregate only the first trajectory',
+  'emu_mps/mps_backend.py',
+  'return Results.aggregate(results)',
+  'return Results.aggregate(results[:1])'),
+ ('at least one repetition per sample',
+  'emu_base/pulser_adapter.py',
+  'range(samples.reps)',
+  'range(max(samples.reps, 1))'),
+ ('emu-sv drops the last trajectory',
+  'emu_sv/sv_backend.py',
+  'return Results.aggregate(results)',
+  'return Results.aggregate(results[:-1])')]
